@@ -375,4 +375,58 @@ PROPS = {
         'trusted_base': [],
         'assumptions': ['handlers eventually release; Go schedules the discipline goroutine'],
     },
+    'C19': {
+        'lean_targets': ['Cqos.Facts.Expect', 'Cqos.Props.C16', 'Cqos.Props.C07', 'Cqos.Props.C03', 'Cqos.Props.C12'],
+        'facts': True,
+        'theorems': ['Cqos.Facts.c19_spawn_table', 'Cqos.Facts.c19_main_defers', 'Cqos.Facts.afterSignal_head',
+                     'Cqos.Facts.c19_nothing_after_signal', 'Cqos.Facts.c19_helper_joined', 'Cqos.Facts.c19_handlers_exit', 'Cqos.Facts.c16_selects_offer_stop',
+                     'Cqos.C16.c16_exit_bound', 'Cqos.C16.c16_quiet', 'Cqos.C16.c16_join_stop', 'Cqos.C07.c07_v2_only_then',
+                     'Cqos.C07.c07_v1_graceful_only_then', 'Cqos.C12.c12_close'],
+        'runs': [{'cmd': 'blackbox', 'args': ['-scenario', 'all']}],
+        'monitor_prefix': ['C19'],
+        'level': 'proof',
+        'level_text': ('the goroutine structure of every discipline is REGENERATED from /repo on every run (go/ast extractor -> '
+                       'Cqos/Facts/Generated.lean) and the kernel decides on that table: each constructor starts exactly one goroutine '
+                       '(main), only the simplified disciplines start more (HandlersQuantity handlers from main); the termination signal '
+                       'the API waits on (closed err/output, breaker.Complete) is the first-registered deferred call of main, hence (general '
+                       'lemma afterSignal_head) the last thing main ever executes; v1 Simple stops the inner discipline, cancels the handlers\' '
+                       'context and waits for them (wg.Wait) before signalling, each handler defers wg.Done and returns on ctx.Done in both '
+                       'selects; the v2 handler is a range over the output that main closes; every blocking select of v1 offers both stop '
+                       'cases. That main reaches its end on every termination path is the machine theorems (C16 exit bound, C07 termination '
+                       'only after all released, C12/C03 close). Black-box scenarios end every discipline in every way (inputs closed, Stop, '
+                       'cancel, GracefulStop, Stop with busy handlers, divider error) and probe the goroutine profile for library frames'),
+        'level_note': ('partial: the step from the structural facts to "the goroutine is gone" relies on Go\'s defer semantics (modelled by '
+                       'afterSignal) and on the handlers being scheduled after their channel closes (v2 simple handlers leave a moment after '
+                       'Err() closes - not a leak, but not "at the instant"); trusted: the go/ast fact extractor (cmd/facts)'),
+        'rule': 'black-box scenarios prio2/simple2/prio1/simple1/join/limit/dynamic; after every termination runtime.Stack is scanned for frames inside github.com/akramarenkov/cqos (3 s grace)',
+        'technique': 'Lean 4 theorems decided on a fact table regenerated from the Go source by a go/ast translator + machine theorems of the hand-written model + black-box goroutine-profile probe',
+        'trusted_base': ['go/ast fact extractor /verif/harness/cmd/facts (translator)'],
+        'assumptions': ['Go runs deferred calls in reverse registration order after the function body', 'user Handle functions honour their context (v1 Simple)'],
+    },
+    'C20': {
+        'lean_targets': ['Cqos.Facts.Expect', 'Cqos.Props.C08', 'Cqos.Props.C17'],
+        'facts': True,
+        'theorems': ['Cqos.Facts.c20_confined', 'Cqos.Facts.c20_main_writes', 'Cqos.Facts.c20_ctors', 'Cqos.Facts.c19_spawn_table',
+                     'Cqos.C08.c08_copy', 'Cqos.C08.c08_nocopy', 'Cqos.C08.c08_await_only_release', 'Cqos.C08.c08_v1_frozen',
+                     'Cqos.C17.c17_unregistered_not_read'],
+        'runs': [{'cmd': 'blackbox', 'args': ['-scenario', 'all'], 'race': True}],
+        'monitor_prefix': ['C20'],
+        'level': 'proof',
+        'level_text': ('confinement, decided by the kernel on the field-access table REGENERATED from /repo on every run: in every '
+                       'discipline type the fields written by anything reachable from main (the only goroutine a constructor starts, C19 '
+                       'table) are neither read nor written by anything reachable from an exported method or a handler goroutine; '
+                       'constructors start the goroutine as their last statement (every constructor write happens-before it); the API '
+                       'touches only channels and the breaker, which synchronise. User-visible data: the join machine\'s memory-identity '
+                       'theorems - a copy-mode slice is fresh memory never touched again; a no-copy slice is not written between its send and '
+                       'the release (nor after Stop in v1); an unregistered input channel is never received from (C17). The same black-box '
+                       'scenarios run under the Go race detector (many handlers releasing, producers, Stop/GracefulStop/AddInput/RemoveInput '
+                       'from other goroutines, consumers modifying copy-mode slices); every report is a failing input'),
+        'level_note': ('partial: Go\'s memory model is not formalised - the theorem is the confinement discipline that makes the library '
+                       'race-free given that channel operations synchronise; races inside internal/breaker and the standard library are '
+                       'covered by the race-detector runs only; trusted: the go/ast fact extractor (cmd/facts)'),
+        'rule': 'black-box scenarios built with -race (CGO), GORACE log parsed: each WARNING: DATA RACE is a failing input',
+        'technique': 'Lean 4 theorems decided on a field-access table regenerated from the Go source by a go/ast translator + memory-identity theorems of the join model + black-box runs under the Go race detector as failing-input search',
+        'trusted_base': ['go/ast fact extractor /verif/harness/cmd/facts (translator)', 'Go race detector (failing-input search only)'],
+        'assumptions': ['channel send/receive/close and sync primitives synchronise as in the Go memory model'],
+    },
 }
